@@ -14,6 +14,7 @@ file mirrors what is around them:
 -/
 import RelicVerif.Model.MulAlg
 import RelicVerif.Model.Rec
+import RelicVerif.Model.EpMul
 
 namespace Relic.Model.EdMul
 open Relic.Model.MulAlg Relic.Model.Rec
@@ -44,6 +45,12 @@ def bitsMsb (n : Nat) : List Bool := (List.range (bitLen n)).reverse.map fun i =
 def mulBasic (o : Ops G) (isO : G → Bool) (p : G) (k : Int) : Option G :=
   if k = 0 ∨ isO p then some o.zero else
   (recNaf (bitLen k.natAbs + 1) k.natAbs 2).map fun ds => signed o k (mulSigned o [p] o.zero ds)
+
+/-- ed_mul_dig: a single-digit scalar k < 2^w (w = RLC_DIG), binary NAF into int8_t naf[RLC_DIG + 1], the loop of ed_mul_basic
+    with the table [P]; no sign -/
+def mulDig (o : Ops G) (isO : G → Bool) (w : Nat) (p : G) (k : Nat) : Option G :=
+  if k = 0 ∨ isO p then some o.zero else
+  (recNaf (w + 1) k 2).map fun ds => mulSigned o [p] o.zero ds
 
 /-- ed_mul_lwnaf (ed_mul_naf_imp): width-w NAF of k mod r into int8_t naf[RLC_FP_BITS + 1], table of odd multiples (ed_tab) -/
 def mulLwnaf (o : Ops G) (isO : G → Bool) (par : Par) (p : G) (k : Int) : Option G :=
@@ -106,6 +113,15 @@ def mulFixCombs (o : Ops G) (par : Par) (p : G) (k : Int) : Option G :=
   let tab := tabCombs o p l par.depth
   some ((List.range l).reverse.foldl (fun r i => o.add (o.dbl r) (tab.getD (combCol (par.red k) l par.depth i) o.zero)) o.zero)
 
+/-- ed_mul_pre_combd + ed_mul_fix_combd (cloned from ep_mul_pre_combd / ep_mul_fix_combd: the models are the ones of
+    Model/EpMul.lean).  dd = ⌈bn_bits(r)/RLC_DEPTH⌉ columns, e = ⌈dd/2⌉; the table is the single comb table with column distance
+    dd followed by O and every entry doubled e times; the scalar is reduced modulo r; e iterations r = 2r + t[column i] +
+    t[2^depth + column i+e] (second column only while i + e < dd); both additions unconditional. -/
+def mulFixCombd (o : Ops G) (par : Par) (p : G) (k : Int) : Option G :=
+  let dd := (par.ordBits + par.depth - 1) / par.depth
+  let e := (dd + 1) / 2
+  some (EpMul.mulCombd o (EpMul.tabCombd o p dd e par.depth) (par.red k) dd e par.depth)
+
 /-! ### simultaneous multiplications k·P + m·Q -/
 
 /-- ed_mul_sim_basic: two ed_mul and one addition; `mul` = the configured ed_mul -/
@@ -151,6 +167,15 @@ def simPlainGen (o : Ops G) (par : Par) (g : G) (k : Int) (q : G) (m : Int) : Op
   | some n0, some n1 =>
     some (MulAlg.simInter o (tabOdd o g (2 ^ (par.depth - 2))) (tabOdd o q (2 ^ (par.width - 2))) o.zero n0 n1)
   | _, _ => none
+
+/-- ed_mul_sim_lot: l = max_i (bn_bits(k_i) + 1); every scalar (NOT reduced modulo r, any sign) recoded into a binary NAF of
+    capacity l (`none` = ERR_NO_BUFFER: never, Lemmas/EdLot.lean), the points negated for negative scalars; then the interleaved
+    loop of ep_mul_sim_lot_plain (Model/EpMul.lean `simLotNaf`): l iterations r = 2r, r ± P_j by the sign of the digit. -/
+def simLot (o : Ops G) (pks : List (G × Int)) : Option G :=
+  let l := (pks.map fun pk => bitLen pk.2.natAbs + 1).foldl max 0
+  let nafs := pks.map fun pk => recNaf l pk.2.natAbs 2
+  if nafs.any Option.isNone then none else
+  some (EpMul.simLotNaf o (pks.map fun pk => if pk.2 < 0 then o.neg pk.1 else pk.1) (nafs.map fun x => x.getD []) l)
 
 /-- ed_mul_gen: k = 0 ⇒ O, otherwise the configured fixed-base method on the generator's table -/
 def mulGen (o : Ops G) (fix : G → Int → Option G) (g : G) (k : Int) : Option G :=
